@@ -1,6 +1,7 @@
 import GnarkVerif.Proofs.PointCodec
 import GnarkVerif.Proofs.PointCodecStream
 import GnarkVerif.Proofs.PointCodecInst
+import GnarkVerif.Proofs.PointCodecWriter
 import GnarkVerif.Props.C01
 /-
 C07 — Point and stream codecs round-trip, validate fully and never hide an error.
@@ -272,6 +273,72 @@ example : (decodeVal toyEnv true .g1s [0, 0, 0, 3, 0x81, 0x82, 0x81]).res = .err
 
 end toy
 
+/-! ## 10. `Encoder.Encode` on a writer that fails: no write error is hidden
+
+The writer accepts byte budgets one after the other (`Budgets`, Model/PointCodec.lean): `[k]` accepts exactly `k`
+bytes and then fails for ever, `[k, m, …]` fails once after `k` bytes and works again (a transient failure).
+`encodeTo E raw w v = (bytes the writer accepted, error reported by Encode, writer afterwards)`;
+`BytesWritten` advances by the number of accepted bytes. -/
+
+/-- the `Write` calls `Encode(v)` makes (one per integer / element / point / length prefix) concatenate to the
+encoding of `v` -/
+theorem C07_encode_chunks (E : Env α β) (raw : Bool) (v : Val α β) :
+    (encodeChunks E raw v).flatten = encodeVal E raw v :=
+  encodeChunks_flatten E raw v
+
+/-- an `Encode` that stops at the first failed `Write` behaves, on every writer, as ONE `Write` of the whole
+encoding — however the encoding is cut into `Write` calls -/
+theorem C07_encodeTo_one_write (E : Env α β) (raw : Bool) (w : Budgets) (v : Val α β) :
+    encodeTo E raw w v = wWrite w (encodeVal E raw v) :=
+  encodeTo_eq_write E raw w v
+
+/-- the writer that accepts exactly `k` bytes: `Encode` reports an error iff `k` is less than the length of the
+encoding, and the bytes that reached the writer are the first `k` bytes of the encoding (so `BytesWritten` is
+`min k length`) -/
+theorem C07_encodeTo_limit (E : Env α β) (raw : Bool) (k : Nat) (v : Val α β) :
+    (encodeTo E raw [k] v).1 = (encodeVal E raw v).take k ∧
+    ((encodeTo E raw [k] v).2.1 = true ↔ k < (encodeVal E raw v).length) := by
+  rw [encodeTo_eq_write]
+  by_cases h : (encodeVal E raw v).length ≤ k
+  · rw [wWrite_cons_le k [] _ h]
+    exact ⟨(List.take_of_length_le h).symm, by simp; omega⟩
+  · rw [wWrite_cons_gt k [] _ h]
+    exact ⟨rfl, by simp; omega⟩
+
+/-- every writer: what reached it is a prefix of the encoding; a nil error means the WHOLE encoding reached it; an
+error means strictly less did -/
+theorem C07_encodeTo_no_hidden_error (E : Env α β) (raw : Bool) (w : Budgets) (v : Val α β) :
+    (encodeTo E raw w v).1 <+: encodeVal E raw v ∧
+    ((encodeTo E raw w v).2.1 = false → (encodeTo E raw w v).1 = encodeVal E raw v) ∧
+    ((encodeTo E raw w v).2.1 = true → (encodeTo E raw w v).1.length < (encodeVal E raw v).length) := by
+  rw [encodeTo_eq_write]
+  exact ⟨wWrite_prefix _ _, wWrite_ok _ _, wWrite_err _ _⟩
+
+/-- when `Encode` reports no error, what the writer holds decodes back to the value and `BytesRead` is the number of
+bytes the writer accepted -/
+theorem C07_encodeTo_roundtrip (E : Env α β) (hE : EnvOK E) (raw sub : Bool)
+    (hL : raw = false → E.C1.L ≠ .raw ∧ E.C2.L ≠ .raw) (w : Budgets) (v : Val α β) (hv : ValOK E sub v)
+    (rest : List UInt8) (hok : (encodeTo E raw w v).2.1 = false) :
+    decodeVal E sub v.ty ((encodeTo E raw w v).1 ++ rest) = ⟨.ok v, (encodeTo E raw w v).1.length⟩ := by
+  rw [(C07_encodeTo_no_hidden_error E raw w v).2.1 hok]
+  exact decodeVal_roundtrip E hE raw sub hL v hv rest
+
+/-- several `Encode` calls on ONE encoder whose writer accepts exactly `k` bytes: the writer holds the first `k` bytes
+of the concatenated encodings, and no call reports an error iff everything fitted -/
+theorem C07_encodeSeqTo_limit (E : Env α β) (raw : Bool) (k : Nat) (vs : List (Val α β)) :
+    seqWritten (encodeSeqTo E raw [k] vs) = (encodeSeq E raw vs).take k ∧
+    (seqClean (encodeSeqTo E raw [k] vs) = true ↔ (encodeSeq E raw vs).length ≤ k) :=
+  ⟨encodeSeqTo_limit_written E raw k vs, encodeSeqTo_limit_clean E raw k vs⟩
+
+-- [][]fr = [[1],[2]] is 00000002 00000001 01 00000001 02: the writer fails in the FIRST inner vector …
+example : encodeTo toyEnv false [8] (.frss [[1], [2]]) = ([0, 0, 0, 2, 0, 0, 0, 1], true, []) := by decide
+-- … and an error is reported also when the writer works again for the rest (here the last inner vector is empty)
+example : encodeTo toyEnv false [8, 100] (.frss [[1], []]) = ([0, 0, 0, 2, 0, 0, 0, 1], true, [100]) := by decide
+example : encodeTo toyEnv false [14] (.frss [[1], [2]]) = ([0, 0, 0, 2, 0, 0, 0, 1, 1, 0, 0, 0, 1, 2], false, [0]) := by
+  decide
+-- two calls on one encoder, the first one fails inside its length prefix, the second one goes through
+example : encodeSeqTo toyEnv false [2, 100] [.frs [3], .u 2 0x0102] = [([0, 0], true), ([1, 2], false)] := by decide
+
 /-
 FINDINGS (Go code vs. the property; the model follows the property; op lines for `gvharness -mode exec`):
  F1  Decoder.Decode(*[][]fr.Element / *[][][]fr.Element) overwrites `err` in its loop (marshal.go.tmpl, generated
@@ -291,6 +358,10 @@ FINDINGS (Go code vs. the property; the model follows the property; op lines for
      zero (32 arbitrary bytes with top bits 01 decode to infinity): non-canonical encodings of infinity.
  F8  bw6-633 G1 and bw6-761 G2 IsInSubGroup return true for the order-3 points (0, ±2) (and [2] of them) of
      y² = x³ + 4: SetBytes with subgroup check accepts a point outside the prime-order subgroup.
+ F9  Encoder.BytesWritten is not the number of bytes the writer accepted when a `binary.Write` fails: a failed write
+     of a uint32 length prefix (`binary.Write` in encode / encodeRaw, `fr.Vector.WriteTo`) that the writer accepted 1..3
+     bytes of is not counted at all; a failed write of a fixed-size integer (default case) is counted in full.
+     (The error itself is reported.)
 -/
 
 /-! ## decode histories on re-used destinations -/
